@@ -54,6 +54,10 @@ def generate(seed, tier, idx=0):
         prog["rep"] = [int(x) for x in prog["rep"]]
     stats = [{"kind": rng.choice(KINDS), "via": rng.choice(["direct", "event", "event2", "event_ctor"])}
              for _ in range(rng.randint(1, 3))]
+    if rng.random() < 0.25:
+        case_plain = rng.randint(1, 3)
+    else:
+        case_plain = 0
     lists = [prog["roots"]] + [prog["events"][e] for e in program.event_ids(prog)]
     for al in lists:
         for _ in range(rng.choice([0, 1, 1, 2])):
@@ -65,6 +69,8 @@ def generate(seed, tier, idx=0):
             "stream_seeds": [rng.randrange(1, 10 ** 6), rng.randrange(1, 10 ** 6)],
             "probe": rng.random() < 0.3, "sched": {"kind": "S0"},
             "sized_model": rng.random() < 0.1}
+    if case_plain:
+        case["plain_stats"] = case_plain
     eids = program.event_ids(prog)
     if prior == "fault":
         al = prog["events"][rng.choice(eids)]
